@@ -23,7 +23,7 @@ CLAIMED = {
          "each of 15 names shadowed by a local item; all shadowed; generated trait named Send / Sync; #![no_std] library), invoked by absolute path "
          "in modules that import nothing, expanded by the real macro, compiled and run; TLC (Trace_C19) requires every variant to compile and to "
          "give the same run-time result and the same trait availability as the clean-scope run of the same program.",
-         "217 (program, variant) points, all replayed; rustc's name resolution is the oracle; async_trait's own bare `Box` is third party; mock derivations (unimock/mockall output) are not covered",
+         "409 (program, variant) points quick, ~5 000 with the pairs of the thorough tier, all replayed; rustc's name resolution is the oracle; async_trait's own bare `Box` is third party; mock derivations (unimock/mockall output) are not covered",
          "TLA+ reference/shadowing model checked by TLC + exhaustive replay in hostile scopes with TLC comparing verdicts, results and availability against the clean run",
          "7/C19"),
  "C18": ("TLC (MC_C18) models the generator's attribute flow for every placement (fn, parameter, module fn, impl-block fn, trait method) x "
@@ -61,7 +61,7 @@ CLAIMED = {
          "into component-wise normal forms; TLC (Trace_C09) compares them conjunct by conjunct (name, visibility, unsafety, generics, supertraits, "
          "where clause, attributes kept in order, only macro-owned attributes added, method attributes and signatures with the documented async "
          "rewrite and exact Output, default bodies, associated types) and compares the failing conjuncts with the model's prediction (zero drift).",
-         "quick: subsets of size <= 2 and >= 11 plus 1500 seeded ones; thorough: all; three design limitations are recorded in known_findings.json (unsafe trait, default bodies, associated types)",
+         "TLC: all component sets; replay: subsets of size <= 2 and >= 11 plus 1500 (quick) / 5 000 (thorough) seeded ones; three design limitations are recorded in known_findings.json (unsafe trait, default bodies, associated types)",
          "TLA+ model of the trait round trip checked by TLC + TLC trace validation comparing projected input and output traits of real expansions",
          "7/C09"),
  "C11": ("TLC (MC_C11) models the positional `unmock_with` list the generator attaches (f | f(args) | _ per method; none for entraited traits) and "
@@ -88,7 +88,7 @@ CLAIMED = {
          "checks trait-path = direct-path allocations for static delegation. All programs are built with the real macro and run under a counting "
          "global allocator; TLC (Trace_Runtime) compares the paired allocation counts (same-allocations) and results, and judges the token scan of "
          "the generated items (no `dyn` / `Box` / alloc-type tokens unless dynamic dispatch was requested); measured counts equal the model's (zero drift).",
-         "depth <= 3; allocation = global-allocator alloc/realloc calls between measurement points after a warm-up call; token scan by the projector",
+         "depth <= 3 (thorough <= 6); allocation = global-allocator alloc/realloc calls between measurement points after a warm-up call; token scan by the projector",
          "TLA+ allocation-cost model checked by TLC + TLC trace validation of measured allocation counts and generated-token scans from real binaries",
          "7/C14"),
  "C06": ("TLC (MC_C06) drives every abstract entraited-trait program (1..3 same-signature methods x parameter lists x sync / async fn / async_trait x "
@@ -122,7 +122,7 @@ CLAIMED = {
          "guard is violated. The programs are rendered with logging bodies, built with the real macro under both feature settings and run "
          "(direct-call, trait-call, dropped-future scenarios, seeded injective values); TLC (Trace_Runtime) accepts the recorded event log iff "
          "it is a behaviour of the Level-1 machine and trait-call results equal direct-call results.",
-         "bounded (<= 2 params quick with a stratified sample of the programs, <= 3 and all programs thorough); logging bodies; identity = address or carried id",
+         "bounded (<= 2 params quick, <= 3 thorough; TLC explores all programs, the replay is a stratified seeded sample: 3 per (parameter list, dependency kind) group, 1 for the lists of length 3 of the thorough tier); logging bodies; identity = address or carried id",
          "TLA+ call-stack machine model-checked by TLC with the modelled delegating bodies + TLC trace validation of event logs recorded from real generated binaries",
          "7/C01"),
  "C20": ("Session.tla models the compiler session (memo of key -> output, processes with sequence numbers); TLC checks that the pure session "
@@ -190,15 +190,23 @@ m["not_applicable"] = []
 # domain extensions made after the texts above were written (defect-hunt rounds; each extension is what makes the revert of a
 # "fix:" commit visible again - see mutants/RESULTS.json)
 ADDENDA = {
+ "C01": "Both tiers replay a stratified seeded sample of the model-checked family (3 programs per (parameter list, dependency kind) group, 1 for the lists of length 3 that the thorough tier adds).",
+ "C02": "The corpus also has attribute lists (docs, lints, async_trait in first / middle / last position) on functions and modules: all of them stay in the order written, except async_trait, which the macro moves to what it generates.",
+ "C04": "A further setting makes every function `async` (no mock option): the fixed requirement stays `T: Sync + 'static`, `Send` only for by-value dependencies.",
+ "C06": "Extras include a type parameter with a relaxed bound (`trait Tr<K: ?Sized>`, provided and used at `Tr<str>`).",
+ "C07": "Dynamic selection is replayed in both spellings, `delegate_by = ref` and the deprecated `delegate_by = Borrow`; in the latter the application also hands out the OTHER target through `AsRef`, which must never be reached.",
+ "C09": "The replay is a seeded sample of the model-checked component sets in both tiers (quick 1 500, thorough 5 000, plus every set of size <= 2 and >= 11).",
+ "C14": "Programs also return an opaque `impl Fn() -> u64` and enable the (test-gated) `mockall` derivation; thorough walks call chains up to depth 6.",
+ "C20": "The corpus contains invocations that name each other's generated traits (`deps: &impl Ui`), the same invocation before and after the one it names, with different options on the named one.",
  "C08": "Bodies of <= 2 plain items are also replayed as macro-assembled twins: the same module built by a macro_rules! macro, every item an `$i:item` fragment (invisible groups), against the same ground truth.",
  "C11": "The model carries the cargo-feature dimension: with entrait's `unimock` feature off, unimock support comes from the `unimock` option alone (the client crate depends on unimock itself); Level 2 predicts that such programs cannot be compiled (`::entrait::__unimock` is missing) - the named deviation `unimock-option-without-feature`, a known finding.",
- "C12": "Modes also include an async_trait attribute below entrait on a function and on a module (it must move to the generated items and leave the annotated item), and by-value receivers of async trait methods (the Impl<T> moves into a future that must still be Send).",
- "C13": "For `delegate_by = DelegateTr` the generated delegation trait is probed as a third name (it must follow the entraited trait's visibility).",
+ "C12": "Thorough adds return shapes (tuple, `Result<u8, String>`, `&'static str`). Modes also include an async_trait attribute below entrait on a function and on a module (it must move to the generated items and leave the annotated item), and by-value receivers of async trait methods (the Impl<T> moves into a future that must still be Send).",
+ "C13": "Trait inputs are also rendered with an inner doc comment (the item is re-assembled by the macro); thorough adds `pub(self)` / `pub(in path)` on modules, `pub(super)` / `pub(in path)` on traits and exporting invocations with every visibility. For `delegate_by = DelegateTr` the generated delegation trait is probed as a third name (it must follow the entraited trait's visibility).",
  "C15": "Case kinds also include the trait path of an entraited impl block (plain, with a module prefix, with generic arguments - rejected with a diagnostic); the pipeline model (Expand.tla) has the corresponding ParseItem step.",
  "C16": "The model also covers the functions of entraited impl blocks (static and dynamic delegation targets), where the macro inserts its own `__impl` parameter in front of the user's: a fifth stage renames a user parameter of that name, generated `argN` indices count the inserted parameter, and Level 1's distinctness includes it.",
  "C17": "`?Send` is enumerated in its bare and `= true` / `= false` forms; the export-variant relation is also evaluated on traits, where it is the named deviation `export-variant-on-trait` (a known finding).",
- "C18": "Attribute kinds include a disabled cfg applied through cfg_attr (`#[cfg_attr(all(), cfg(any()))]`), which is a cfg for the purposes of the last clause.",
- "C19": "Seventeen programs (adding a by-value receiver and a trait / a concrete-dependency function whose own method is called `as_ref`) x variants that also shadow METHOD names (blanket traits with `as_ref` / `borrow` / `into_inner` methods) and a `#![no_implicit_prelude]` module.",
+ "C18": "Thorough renders every input also with an unrelated attribute before / after the marker. Attribute kinds include a disabled cfg applied through cfg_attr (`#[cfg_attr(all(), cfg(any()))]`), which is a cfg for the purposes of the last clause.",
+ "C19": "Seventeen programs (adding a by-value receiver and a trait / a concrete-dependency function whose own method is called `as_ref`) x variants that also shadow METHOD names (blanket traits with `as_ref` / `borrow` / `into_inner` methods) and a `#![no_implicit_prelude]` module; the user's delegation trait is also named AsRef / Send / Sync / Impl / Future; thorough shadows every pair of names together.",
 }
 for p in props:
     pid = p["id"]
